@@ -163,6 +163,33 @@ def run_impl(case):
                 {k: [dict(p) for p in v] for k, v in Hsub.constraints.items()}, {k: [dict(p) for p in v] for k, v in Hn.constraints.items()}))
         if sp is None and Hsub.num_ancillas != Hn.num_ancillas:
             checks.append("num_ancillas after subs is %d, numeric build has %d" % (Hsub.num_ancillas, Hn.num_ancillas))
+    obs_now = c02.observe(Hsub if sp is None else Hn, wn) if fam != "c01" else None     # before the follow-up calls below
+    if hasattr(Hn, "constraints") and sp is None:
+        # (a) the same after a product with a one-term polynomial, which drops the recorded constraints and keeps the ancillas
+        try:
+            Hs_p, Hn_p = Hs * {(): 2}, Hn * {(): 2}
+            Hsub_p = Hs_p.subs(subsd)
+            if dict(Hsub_p) != dict(Hn_p):
+                checks.append("after a product with {(): 2}: coefficients after subs differ from the numeric build")
+            if type(Hsub_p) is not type(Hn_p) or Hsub_p.num_ancillas != Hn_p.num_ancillas:
+                checks.append("after a product with {(): 2}: subs gives %s with num_ancillas %d, the numeric build is %s with %d"
+                              % (type(Hsub_p).__name__, Hsub_p.num_ancillas, type(Hn_p).__name__, Hn_p.num_ancillas))
+        except (KeyError, ValueError, TypeError) as ex:
+            checks.append("product with {(): 2} followed by subs raised %r" % (ex,))
+        # (b) the substituted model is a model of its own: constraints added to it must not show up in the original
+        labs_ = sorted({l for k in Hn for l in k if not str(l).startswith("__a")}, key=C.enc)
+        if labs_:
+            with warnings.catch_warnings():
+                warnings.simplefilter("ignore")
+                for rel in list(Hsub.constraints):
+                    try:
+                        getattr(Hsub, "add_constraint_%s_zero" % rel)({(labs_[0],): 1, (): -1}, lam=1)
+                    except (KeyError, ValueError, TypeError):
+                        pass
+            snap3 = (dict(Hs), getattr(Hs, "_constraints", None) and {k: [dict(p) for p in v] for k, v in Hs._constraints.items()},
+                     getattr(Hs, "_ancilla", None))
+            if snap3 != snap:
+                checks.append("a constraint added to the result of subs changed the original model (shared state)")
     # every symbolic coefficient is affine in each symbol
     for k, v in Hs.items():
         if isinstance(v, sympy.Basic):
@@ -174,7 +201,7 @@ def run_impl(case):
     if fam == "c01":
         out["model"] = {"kind": type(Hsub).__name__, "terms": C.jterms(C.enc_terms(Hsub))}
     else:
-        out["obs"] = c02.observe(Hsub if sp is None else Hn, wn)
+        out["obs"] = obs_now
         out["ncalls"] = n
     return out
 
